@@ -244,6 +244,9 @@ func buildRegistration(r *RNG, s *RegSpec) *RegBuilt {
 	cred := s.Cred
 	if cred == nil {
 		switch {
+		case s.Format == "fido-u2f" && s.d("u2f.credNotEC2"):
+			cred = genKeyPair(r, pick(r, []int{algRS256, algEdDSA, algPS256}))
+			s.Algs = allAlgs
 		case s.Format == "fido-u2f":
 			cred = genKeyPairOnCurve(r, s.CredAlg, 1, r.P(1, 4))
 		case kindOfAlg(s.CredAlg) == "ec" && (s.Format == "tpm" || s.Format == "android-key" || s.Format == "apple"):
@@ -554,7 +557,7 @@ func buildRegistration(r *RNG, s *RegSpec) *RegBuilt {
 		certInfo := tpmCertInfo(extra, name, magic, typ)
 		attrs := honestTPMAttrs(r)
 		if s.d("tpm.sanUnknownVendor") {
-			attrs[0].Val = pick(r, []string{"id:00000000", "id:12345678", "id:414D4401", "id:414d4400", "AMD", "id:414D44"})
+			attrs[0].Val = pick(r, []string{"id:00000000", "id:12345678", "id:414D4401", "AMD", "id:414D44"})
 		}
 		if s.d("tpm.sanNoModel") {
 			attrs = []tpmAttr{attrs[0], attrs[2]}
